@@ -3,7 +3,7 @@
 (*  smart  smartclip.Ring / Polygon / MultiPolygon / Geometry on closed, correctly wound simple rings             *)
 (*  open   smartclip.Ring on an open sub-path of such a ring whose two ends lie on the box boundary                *)
 (* Coordinates in lattice units (1/60), box and input on the integer grid, o = 1 (counter-clockwise) or -1.        *)
-(* "alt": events in the input class of the recorded finding (TouchFromInside) are re-judged without the region      *)
+(* "alt": events in the input class of the recorded finding (TouchFailProne) are re-judged without the region       *)
 (* predicate; every other requirement still applies to them.                                                       *)
 EXTENDS SmartClip, TLC, Json, IOUtils
 Trace == ndJsonDeserialize(IOEnv.TRACE)
@@ -43,7 +43,7 @@ SmartOk(e, WAIVE) ==
    /\ (OutersOK(e.box, e.in) => Shape(e.box, e.out, e.o))
    /\ e.pstable = 1                                            \* the previous call's result was left alone
    /\ (AllInside(e.box, e.in) => e.out = e.in)
-   /\ (~InDomain(e.box, e.in) \/ (WAIVE /\ TouchFromInside(e.box, e.in)) \/ RegionOK(e.box, e.in, e.out, e.st))
+   /\ (~InDomain(e.box, e.in) \/ (WAIVE /\ TouchFailProne(e.box, e.in, e.o)) \/ RegionOK(e.box, e.in, e.out, e.st))
    /\ (OutsideAll(e.box, e.in) => e.out = <<>>)              \* wholly outside yields nothing
 \* the open path starts and ends strictly outside the box and runs strictly inside in between, so it is cut into
 \* exactly one piece (ClipLine!Expected, open option) whose ends lie on the outline
